@@ -199,13 +199,38 @@ def check_C03(tier):
     ok, msg = prebuild()
     if not ok:
         return build_failure(pid, tier, msg)
-    proof = common.prove(["Y.Props.C03_oracle_exact", "Y.Props.C03_oracle_lr1", "Y.Props.C03_laLines", "Y.LA_iff"], ["Yv.Props.C03", "Yv.Abs.Lalr"])
+    proof = common.prove(["Y.Props.C03_oracle_exact", "Y.Props.C03_oracle_lr1", "Y.Props.C03_laLines", "Y.LA_iff",
+                          "Y.Props.C03_dp_exact", "Y.Props.C03_dp_exact_with", "Y.Props.C03_dp_eq_laL", "Y.Props.C03_dp_declarative", "Y.Props.C03_dp_lr1", "Y.Props.C03_dp_lines",
+                          "Y.Props.C03_dp_read", "Y.Props.C03_dp_follow", "Y.Props.C03_dp_la"],
+                         ["Yv.Props.C03", "Yv.Abs.Lalr", "Yv.Props.C03b"])
     results = sweep.run(tier, rng, inputs=False, n_random=600 if tier == "quick" else 15000,
                         n_tiny=600 if tier == "quick" else None)
     ties = cert_ties(results, ["gramWF", "certA", "prodOK"])
     for r in results:
         if r.refused is None and r.V.get("laOracle", ["?"])[0] == "UNSTABLE":
             ties.append({"what": "the verified oracle laL returned none (fails closed)", "case": r.id, "src": r.case["src"]})
+    # the DeRemer-Pennello computation itself: every stage of the implementation (transition list, DR, Read,
+    # Follow, the three relations) against the verified model (C03_dp_exact), whose hypotheses are evaluated too
+    dp_stage_lines = 0
+    for r in results:
+        if r.refused is not None:
+            continue
+        for nm in ("certCanon", "nullExact", "dpStartOK"):
+            v = r.V.get(nm)
+            if v is None or v[0] != "ok":
+                ties.append({"what": "hypothesis %s of C03_dp_exact fails on the implementation's artefacts" % nm, "case": r.id, "src": r.case["src"]})
+        norm = lambda l: " ".join(l.split())
+        il = sorted(norm(l) for l in r.impl if l.split() and l.split()[0] in ("DPTR", "DPKEY", "DPREL"))
+        ml = sorted(norm(l) for l in r.M if l.split() and l.split()[0] in ("DPTR", "DPKEY", "DPREL"))
+        dp_stage_lines += len(il)
+        if any(l.startswith("M DPNONE") for l in r.raw_model):
+            ties.append({"what": "the DeRemer-Pennello model returned none (a least solution failed its check)", "case": r.id, "src": r.case["src"]})
+        elif il != ml:
+            k = next((i for i in range(max(len(il), len(ml))) if i >= len(il) or i >= len(ml) or il[i] != ml[i]), 0)
+            ties.append({"what": "a stage of the DeRemer-Pennello computation differs from the verified model", "case": r.id, "src": r.case["src"],
+                         "impl": il[k][:300] if k < len(il) else "<missing>", "model": ml[k][:300] if k < len(ml) else "<missing>"})
+        if any(l.startswith("X dp=laL FAIL") for l in r.raw_model):
+            ties.append({"what": "the DeRemer-Pennello model disagrees with the verified oracle laL", "case": r.id, "src": r.case["src"]})
     violations, samples = [], []
     sets = 0
     warn_lines_seen = warn_lines_read = 0
@@ -240,7 +265,8 @@ def check_C03(tier):
     if warn_lines_seen and not warn_lines_read:
         ties.append({"what": "conflict warnings are printed but none is in the wording this check reads: only the grammar-level iff was checked, not the cells"})
     cov = std_cov(results, sets, GEN_RULE + "; evaluations = (state, rule) lookahead sets compared", samples,
-                  {"partial": ["yaccgo's DeRemer-Pennello computation is validated per grammar against the VERIFIED oracle laL (C03_oracle_exact), not itself verified for all grammars"]})
+                  {"dp_stage_lines_compared": dp_stage_lines,
+                   "partial": ["the Digraph routine (SCC-based closure) is not modelled: its results ReadSet/FollowSet/lookaheads are compared per grammar with the verified least solutions of the DeRemer-Pennello model (C03_dp_exact)"]})
     return common.conclude(pid, tier, "proof", proof, ties, violations, cov, [])
 
 
